@@ -332,8 +332,7 @@ def run_case(case):
         from harness import replay_lib
         if not common.claim('C01', sig):
             continue            # another worker replays this class
-        d = replay_lib.make_c01_replay(ref, v)
-        status, out = common.run_replay(d)
+        d, status, out = common.replay_portfolio(lambda: replay_lib.make_c01_replay(ref, v))
         v['replay'] = d
         if status == 'reproduced':
             res['violations'].append(v)
@@ -367,6 +366,9 @@ def cases():
     for j, mm in enumerate([x for x in families.curated_meshes() if x.name in ('3d-2lev-mixed', '2d-2lev')]):
         out.append({'label': '%s/lev-prefix' % mm.name, 'mesh': mm, 'fields': ['density', 'temp'] if 'c05' in __name__ else families.FIELD_SETS[1 + j], 'layout': families.scatter_layouts(mm, rnd, 2), 'geom': j,
                     'ref_extra': j, 'level_prefix': ['Lev_', 'amr_'][j]})
+    # eleven levels: a level number with two digits
+    dm = families.deep_mesh(11, 2)
+    out.append({'label': dm.name, 'mesh': dm, 'fields': fsets[1], 'layout': families.scatter_layouts(dm, rnd, 1), 'geom': 0})
     nrand = 6 if tier == 'quick' else 300
     for r in range(nrand):
         nd = rnd.choice([2, 3])
